@@ -18,6 +18,9 @@ What is proved here (about the abstract trace model `GqlModel.Locks` and about t
   `GqlModel.Locks` (construction-only function / lazy initialiser forced at construction / named mutex held), the atomic
   and mutex fields are the expected ones, and every lazy initialiser is reachable from `NewSchema`/`NewEnum` in the
   regenerated call graph. A new unguarded write, a removed `Lock()`, a de-atomised counter break it.
+* `lazy_inits_single_critical_section`, `lazy_guards_as_classified` — the shape premises: one `Lock(); defer Unlock()`
+  per function, check and store in the same critical section (`split_critical_section_breaks_lazy_init` shows what goes
+  wrong otherwise), and the write-once guards of the lazy initialisers are the ones that were read.
 
 Residual (sampled by harness/cmd/c07 under the race detector, not proved): that the extractor's syntactic facts imply
 the trace discipline for the real program (aliasing, user callbacks, the Go memory model itself), panics/deadlocks,
@@ -96,6 +99,24 @@ theorem sites_respect_discipline :
     sitesRespectDiscipline Generated.lockFacts Generated.fieldAccesses Generated.atomicFields Generated.mutexFields
       Generated.constructionCalls = true := by
   decide +kernel
+
+/-- Table obligation: every critical section of /repo is `Lock(); defer Unlock()` — one per function and mutex —, every
+field used under a mutex is used in exactly one critical section of the function, and `Plan.abstractAlternative` has one:
+the check-then-store atomicity that `lazy_init_schedule_independent` presupposes. -/
+theorem lazy_inits_single_critical_section :
+    singleCriticalSections Generated.critSections Generated.fieldRegions = true := by
+  decide +kernel
+
+/-- Table obligation: the lazy initialisers still start with the write-once guard they were classified under. -/
+theorem lazy_guards_as_classified : lazyGuardsAsClassified Generated.lazyGuards = true := by
+  decide +kernel
+
+/-- Why the shape matters: with the critical section split in two and the slot claimed by a placeholder in between, all
+accesses are still under the mutex, yet there is a schedule of two threads in which the second one finishes with the
+placeholder instead of `init`. -/
+theorem split_critical_section_breaks_lazy_init :
+    ∃ sched : List Tid, (srun (7 : Nat) sched).pc 1 = 5 ∧ (srun (7 : Nat) sched).out 1 = some none := by
+  exact ⟨[0, 0, 1, 1], by decide⟩
 
 /-! ## Non-vacuity -/
 
